@@ -1,2 +1,4 @@
-From V Require Import Val LtsWire.
+From V Require Import Val LtsWire LtsOracle.
 Definition x_C02_lts (v : val) : val := lts_run v.
+(* v = (case observed): the oracle of Properties/C02.v, theorem C02_model_passes *)
+Definition x_C02_ok (v : val) : val := vbool (ok_C02 (dec_lcase (nthv 0 v)) (dec_obs (nthv 1 v))).
